@@ -13,6 +13,14 @@ out-of-band list.
 
 Model (S3): Proto/Fds.lean through drv_c20; the abstract parser `info` of the model is tabulated by
 parsing each raw message once with a probe list that answers every index with the index itself.
+Extension 2026-09-30 (C20 composed with C03 / C04 / C01, Proto/FdsMsg.lean): stream `end-to-end-constructed` -
+real constructors with real oobFDs lists, real sendMessage on a recording UNIX transport, the recorded stream
+replayed into a real receiver under a random interleaving the environment model allows; the Lean side (driver
+command X) gets the constructor ARGUMENTS and the events and runs C03's constructor model + `oobAfter` /
+`sendConstructed`, then `recvRun` with `infoOfParse` (no table from the real parser) and `parsedDelivery`; stream
+`info-of-parse` - `infoOfParse` against the probe table of the real parser on every kind of message the receiver
+streams use.  Implementation-only stream `recv-reentrant`: handlers that feed the next reads before they return, or
+raise while the caller keeps the connection (as harness/c04.py `reentrant-delivery`).
 Oracle (S4, implementation only): every `h` argument of message i resolves to the descriptor sent at
 that position with message i, exactly len(fds(i)) entries are consumed, for every interleaving a stream
 socket can produce; sender: header count = number of `h` arguments = len(oobFDs), indices 0..k-1 in
@@ -25,20 +33,27 @@ from harness import c04
 
 STREAMS = ['recv-exhaustive', 'recv-random', 'recv-handshake', 'recv-malformed', 'sender-layout',
            'sender-callremote', 'end-to-end-constructed', 'info-of-parse']
+# implementation-only stream (no model: the model's handlers neither re-enter nor raise): 'recv-reentrant'
 THEOREMS = ['sender_layout', 'attribution', 'attribution_after_handshake', 'attribution_callRemote',
             'sender_calls_consistent', 'model_rules_match_source',
             'info_of_constructed', 'descriptors_end_to_end', 'descriptors_end_to_end_sender',
             'descriptors_end_to_end_after_handshake', 'sender_sends_constructed', 'senderEvs_consistent']
 TRUSTED_BASE = [
     'the message parser is an abstract parameter of the receiver model (raw message -> declared unix_fds, '
-    'indices of its h arguments); the harness tabulates it by parsing each raw message with a probe list',
+    'indices of its h arguments); in the streams recv-* the harness tabulates it by parsing each raw message with a '
+    'probe list; in end-to-end-constructed / info-of-parse it is the model\'s own infoOfParse (C03 parseMessage model)',
     'bodies are abstracted to trees (descriptor leaf / other leaf / sequence); the harness maps signatures '
     'h, ah, (..), a(..), a{sh}, a{hs} onto them',
     'the environment model (Consistent in Proto/Fds.lean): SCM_RIGHTS ordering, Twisted >= 17.1 sendFileDescriptor',
 ]
 ASSUMPTIONS = [
     'the parser reads back from a message the unix_fds header field and the index values that _marshal wrote '
-    '(C01-C03 round trip); in Lean this is the hypothesis of msgOK_of_callRemote / attribution_callRemote',
+    '(C01-C03 round trip): hypothesis of msgOK_of_callRemote / attribution_callRemote for an abstract parser; PROVED for '
+    'infoOfParse on every message the C03 model constructs (info_of_constructed), so descriptors_end_to_end has no such '
+    'hypothesis',
+    'handlers that re-enter dataReceived or raise while the caller keeps the connection (stream recv-reentrant) are '
+    'judged: the statement quantifies over message sequences and interleavings, not over what handlers do; a reactor '
+    'would drop the connection after an escaped exception (then nothing later is delivered and nothing is judged)',
     'a handshake case is not judged when the authenticator refused the handshake although it was handed its lines '
     '(authentication is C06 / C07); missing or altered lines are judged',
     'descriptors of message i arrive in sending order, after those of earlier messages, each no later than the '
@@ -278,6 +293,17 @@ def gen_msg(rng, i, want=None):
 
 
 # --------------------------------------------------------------------------------------- the real receiver
+QCAP = 512      # more than any scenario queues (deep-queue: <= 120); a longer queue is recorded up to here
+
+
+def capq(q):
+    """The queue as recorded: whole when it is as short as any scenario can make it, else its first QCAP entries
+    followed by -len (a queue that long holds descriptors that were never received on this connection)."""
+    if len(q) <= QCAP:
+        return [int(x) for x in q]
+    return [int(x) for x in q[:QCAP]] + [-len(q)]
+
+
 class Probe(list):
     """A descriptor list that answers every index with the index itself."""
 
@@ -352,7 +378,7 @@ def recv_classes(ctx):
 
         class Rec:
             def rawDBusMessageReceived(self, raw):
-                qb = list(self._receivedFDs)
+                qb = capq(self._receivedFDs)
                 self._last = None
                 # BasicDBusProtocol's method also for the bus protocol (its own override is C14's)
                 protocol.BasicDBusProtocol.rawDBusMessageReceived(self, raw)
@@ -361,8 +387,7 @@ def recv_classes(ctx):
                 if m is not None and m.signature:
                     walk(m.body, args)
                 args = [None if a is None else int(a) for a in args]
-                entry = {'raw': bytes(raw).hex(), 'args': args, 'qb': [int(x) for x in qb],
-                         'qa': [int(x) for x in self._receivedFDs]}
+                entry = {'raw': bytes(raw).hex(), 'args': args, 'qb': qb, 'qa': capq(self._receivedFDs)}
                 if getattr(self, 'want_body', False):
                     entry['body'] = body_line(m)
                 self.log.append(entry)
@@ -458,7 +483,7 @@ def observe(ctx, events, mode='binary', script='', linux=False, want_body=False)
             crashed = type(e).__name__
             break
     ctx.impl_trace()
-    return {'log': p.log, 'buffer': bytes(p._buffer).hex(), 'queue': [int(x) for x in p._receivedFDs],
+    return {'log': p.log, 'buffer': bytes(p._buffer).hex(), 'queue': capq(p._receivedFDs),
             'crashed': crashed, 'effects': list(getattr(p, 'effects', [])),
             'script': ''.join(wrap.script) if wrap is not None else script,
             'auth': 1 if p._authenticated else 0, 'closed': 1 if p.transport.disconnecting else 0}
@@ -968,6 +993,166 @@ def stream_sender(ctx):
 
 
 
+
+# --------------------------------------------------------------------------------------- handlers that re-enter or raise
+class HandlerError(Exception):
+    """Raised by a scheduled message handler (stream recv-reentrant)."""
+
+
+def observe_reentrant(ctx, events, nest, raise_at):
+    """Implementation-only schedules on a real BasicDBusProtocol in binary mode (as harness/c04.py `reentrant-delivery`):
+    (a) the handler of message j feeds the next event(s) of the SAME stream - up to and including the next read -
+    before it returns (a peer on a synchronous in-memory transport answering at once); (b) the handler of message j
+    raises; the caller of dataReceived catches it as a transport glue would and the stream goes on.
+    Every message is recorded when its HANDLER is entered: raw bytes, what its `h` arguments resolved to."""
+    from twisted.internet.testing import StringTransport
+    marshal, message, protocol = _mods()
+    pending = list(reversed(events))
+
+    def feed(ev):
+        if ev[0] == 'f':
+            p.fileDescriptorReceived(FD(int(ev[1:])))
+        else:
+            p.dataReceived(bytes.fromhex(ev[1:]))
+
+    def feed_to_next_read():
+        while pending:
+            ev = pending.pop()
+            feed(ev)
+            if ev[0] == 'r':
+                return
+
+    class PNest(protocol.BasicDBusProtocol):
+        def rawDBusMessageReceived(self, raw):
+            self.stack.append(bytes(raw))
+            try:
+                protocol.BasicDBusProtocol.rawDBusMessageReceived(self, raw)
+            finally:
+                self.stack.pop()
+
+        def _handler(self, m):
+            j = len(self.log)
+            args = []
+            if m.signature:
+                walk(m.body, args)
+            self.log.append({'raw': self.stack[-1].hex() if self.stack else '',
+                             'args': [None if a is None else int(a) for a in args]})
+            for _ in range(nest.get(j, 0)):
+                feed_to_next_read()
+            if raise_at == j:
+                raise HandlerError('handler of message %d' % j)
+
+        methodCallReceived = methodReturnReceived = errorReceived = signalReceived = _handler
+
+    try:
+        p = PNest()
+        p.log, p.stack = [], []
+        p.transport = StringTransport()
+        p._receivedFDs = []
+        p._authenticated = True
+    except (AttributeError, TypeError) as e:
+        raise c04.HarnessFault('setting up the re-entrant receiver failed: %s: %s' % (type(e).__name__, e))
+    crashed, raised = None, 0
+    while pending:
+        try:
+            feed(pending.pop())
+        except HandlerError:
+            raised += 1
+            if not pending:
+                pending.append('r')          # what was buffered behind the failing message is framed by the next read
+        except Exception as e:
+            import traceback
+            tb = traceback.extract_tb(e.__traceback__)
+            if isinstance(e, (AttributeError, TypeError)) and tb and tb[-1].filename.endswith(
+                    ('harness/c04.py', 'harness/c20.py')):
+                raise c04.HarnessFault('%s inside the harness at line %d: %s' % (type(e).__name__, tb[-1].lineno, e))
+            crashed = type(e).__name__
+            break
+    ctx.impl_trace()
+    return {'log': p.log, 'queue': capq(p._receivedFDs), 'crashed': crashed, 'raised': raised,
+            'buffer': bytes(p._buffer).hex()}
+
+
+def judge_reentrant(sc, o):
+    """Implementation only.  Framing under re-entrant or failing handlers is C04's subject: when the messages whose
+    handler was entered are not the first messages of the stream, in order, nothing is judged here.  Otherwise every
+    message whose handler was entered must have seen, in every `h` argument, the descriptor attached to IT at that
+    position ("a descriptor is never attributed to another message"), and when every event has been delivered the
+    queue holds exactly the descriptors that arrived for messages not yet delivered ("consumes exactly the declared
+    count" - of every message it resolved, also one whose handler failed afterwards)."""
+    msgs = sc['msgs']
+    if o['crashed']:
+        return None, None
+    if [d['raw'] for d in o['log']] != [m['raw'] for m in msgs[:len(o['log'])]]:
+        return None, None
+    for i, (d, m) in enumerate(zip(o['log'], msgs)):
+        if d['args'] != m['fds']:
+            return ('descriptor-misattributed',
+                    'message %d (sent with %r) saw its h arguments as %r (handlers re-entering: %r, handler raising at '
+                    'message %r)' % (i, m['fds'], d['args'], sc['nest'], sc['raise_at']))
+    arrived = [int(e[1:]) for e in sc['events'] if e[0] == 'f']
+    used = sum(len(m['fds']) for m in msgs[:len(o['log'])])
+    if o['queue'] != arrived[used:]:
+        return ('descriptor-consumption',
+                'after all events %d messages had been delivered (their %d descriptors resolved); the queue holds %r, '
+                'the descriptors received for later messages are %r (handler raising at message %r)'
+                % (len(o['log']), used, o['queue'], arrived[used:], sc['raise_at']))
+    return None, None
+
+
+def stream_recv_reentrant(ctx):
+    rng = ctx.rng
+    n = ctx.scale(quick=700, thorough=15000)
+    for _ in range(n):
+        k = rng.choice([2, 3, 4, 6, 9])
+        msgs = [gen_msg(rng, i) for i in range(k)]
+        if not any(m['fds'] for m in msgs):
+            msgs[rng.randrange(k)] = gen_msg(rng, 0, want=rng.choice([1, 2, 3]))
+        stream = b''.join(m['raw'] for m in msgs)
+        style = rng.randrange(3)
+        if style == 0:
+            reads = [m['raw'] for m in msgs]                 # every message its own read
+        elif style == 1:
+            reads = [stream]                                 # everything in one read
+        else:
+            reads = c04.random_partition(rng, stream)
+        fds = [d for m in msgs for d in m['fds']]
+        events = interleave(reads, fds, random_slots(rng, deadlines(msgs, reads), len(reads)))
+        nest, raise_at = {}, None
+        kind = rng.random()
+        if kind < 0.6:
+            for j in rng.sample(range(k), rng.choice([1, 1, 2])):
+                nest[j] = rng.choice([1, 1, 2, 3])
+        if kind >= 0.4:
+            raise_at = rng.randrange(k)
+        sc = scenario(msgs, events)
+        sc.update(nest=dict((str(a), b) for a, b in nest.items()), raise_at=raise_at, mode='reentrant')
+        run_reentrant(ctx, sc)
+
+
+def run_reentrant(ctx, sc):
+    nest = dict((int(a), b) for a, b in (sc.get('nest') or {}).items())
+    try:
+        o = observe_reentrant(ctx, sc['events'], nest, sc.get('raise_at'))
+    except c04.HarnessFault as e:
+        SKIPPED['recv-reentrant'] = SKIPPED.get('recv-reentrant', 0) + 1
+        if SKIPPED['recv-reentrant'] == 1:
+            ctx.note('stream recv-reentrant: scenario skipped, the harness could not run it (%s)' % e)
+        return
+    ctx.case('recv-reentrant', sample={'msgs': sc['msgs'], 'events': sc['events'], 'nest': sc.get('nest'),
+                                       'raise_at': sc.get('raise_at')},
+             nontrivial=any(d['args'] for d in o['log']))
+    ctx.stat('recv-reentrant:nested=%s raises=%s' % (bool(nest), sc.get('raise_at') is not None))
+    ctx.stat('recv-reentrant:handler-raised=%d' % o['raised'])
+    if o['crashed']:
+        ctx.stat('recv-reentrant:exception=%s(not judged: framing is C04)' % o['crashed'])
+    key, what = judge_reentrant(sc, o)
+    if key:
+        ctx.violation(key, what, inp=sc, observed={'log': o['log'], 'queue': o['queue']},
+                      expected='every h argument of a delivered message = the descriptor attached to it at that position; '
+                               'the descriptors of a message whose handler failed are consumed like any other')
+
+
 # --------------------------------------------------------------------------------------- end to end, constructed messages
 # C20 composed with C03 / C04 / C01 (extension 2026-09-30): real constructors, real sendMessage on a recording UNIX
 # transport, the recorded stream replayed into a real receiver under a random interleaving the environment model
@@ -1068,7 +1253,7 @@ def e2e_impl_line(sent, o):
 def stream_end_to_end(ctx):
     rng = ctx.rng
     marshal, message, protocol = _mods()
-    n = ctx.scale(quick=350, thorough=9000)
+    n = ctx.scale(quick=1200, thorough=20000)
     cases = []
     for _ in range(n):
         k = rng.choice([1, 2, 3, 3, 4, 6, 9])
@@ -1210,6 +1395,9 @@ def stream_info_of_parse(ctx):
 # --------------------------------------------------------------------------------------- entry points
 def run_corpus_entry(ctx, B, data):
     sc = data.get('input', data)
+    if sc.get('mode') == 'reentrant':
+        run_reentrant(ctx, sc)
+        return
     if 'events' in sc:
         if 'raws' not in sc:
             sc = dict(sc, raws=[m['raw'] for m in sc['msgs']])
@@ -1239,6 +1427,7 @@ def run(ctx):
     guarded(stream_recv_deep_queue, ctx, B)
     guarded(stream_recv_handshake, ctx, B)
     guarded(stream_recv_malformed, ctx, B)
+    guarded(stream_recv_reentrant, ctx)
     guarded(stream_end_to_end, ctx)
     guarded(stream_info_of_parse, ctx)
     for st, k in sorted(SKIPPED.items()):
